@@ -85,11 +85,19 @@ func (x *Exec) Run() (err error) {
 		// requires
 		env := x.entryEnv()
 		var reqs []T
+		reqStart := len(x.vc.lines)
+		defer func() { _ = reqStart }()
 		for _, r := range x.contract.Requires {
 			t := x.evalBool(r, env)
 			reqs = append(reqs, t)
 			x.vc.assumeAlways(t)
 		}
+		x.vc.markAlways(reqStart)
+		start := len(x.vc.lines)
+		for _, mc := range x.contract.Mentions {
+			x.evalIn(mc, env)
+		}
+		x.vc.markAlways(start)
 		// vacuity probe: requires satisfiable
 		o := x.oblige("vacuity/requires", "vacuity", tTrue, tFalse, "requires must be satisfiable", fn.Pos())
 		o.MustFail = true
@@ -354,10 +362,27 @@ func (x *Exec) maybeCut(ins ssa.Instruction) {
 		if x.cutsDone[c] || !strings.Contains(text, c.Text) {
 			continue
 		}
+		if x.cutLine(c) != x.w.fset.Position(pos).Line {
+			continue
+		}
 		x.cutsDone[c] = true
 		env := x.envAt(pos)
 		t := x.evalBool(c.Clause, env)
-		x.oblige(fmt.Sprintf("cut/%s", identSan.ReplaceAllString(c.Text, "_")), "cut", x.curPC, t, c.Clause.Text, pos)
+		cid := fmt.Sprintf("cut/%s.%d", identSan.ReplaceAllString(c.Text, "_"), c.Ord)
+		if c.SplitVar != "" {
+			sv, ok := x.lookupVarAt(c.SplitVar, pos)
+			if !ok {
+				panic(unsupported("cut split: unknown variable " + c.SplitVar + " (contract-anchor-lost)"))
+			}
+			svt := x.ev.specOf(sv)
+			for k := c.SplitLo; k <= c.SplitHi; k++ {
+				pck := x.vc.define("pc_case", mkAnd(x.curPC, mkEq(svt, intT64(int64(k)))))
+				x.oblige(fmt.Sprintf("%s/%s=%d", cid, c.SplitVar, k), "cut", pck, t, c.Clause.Text, pos)
+			}
+			x.oblige(cid+"/cases-exhaustive", "cut", x.curPC, mkAnd(mkCmp("<=", intT64(int64(c.SplitLo)), svt), mkCmp("<=", svt, intT64(int64(c.SplitHi)))), "case split on "+c.SplitVar+" is exhaustive", pos)
+		} else {
+			x.oblige(cid, "cut", x.curPC, t, c.Clause.Text, pos)
+		}
 		for _, name := range c.Havoc {
 			cell := x.lookupCellAt(name, pos)
 			if cell == nil {
@@ -367,12 +392,36 @@ func (x *Exec) maybeCut(ins ssa.Instruction) {
 		}
 		env = x.envAt(pos)
 		t = x.evalBool(c.Clause, env)
-		x.vc.assume(t)
-		x.cutFacts = append(x.cutFacts, len(x.vc.lines)-1)
-		x.curPC = tTrue
-		o := x.oblige(fmt.Sprintf("cut/%s/cover", identSan.ReplaceAllString(c.Text, "_")), "cover", tTrue, tFalse, "cut assumption satisfiable", pos)
+		// the path condition restarts from an unconstrained boolean: what follows is proved for
+		// every state satisfying the clause, whether or not it is reachable
+		npc := x.vc.fresh("pc_cut", sortBool)
+		x.vc.assume(mkImp(npc, t))
+		x.curPC = npc
+		o := x.oblige(cid+"/cover", "cover", npc, tFalse, "cut assumption satisfiable", pos)
 		o.MustFail = true
 	}
+}
+
+// cutLine returns the source line of the Ord-th line (within the function) containing the cut's text.
+func (x *Exec) cutLine(c *CutSpec) int {
+	syn := x.fn.Syntax()
+	if syn == nil {
+		return -1
+	}
+	start := x.w.fset.Position(syn.Pos())
+	end := x.w.fset.Position(syn.End())
+	x.lineText(syn.Pos())
+	lines := x.srcLines[start.Filename]
+	n := 0
+	for ln := start.Line; ln <= end.Line && ln-1 < len(lines); ln++ {
+		if strings.Contains(lines[ln-1], c.Text) {
+			n++
+			if n == c.Ord {
+				return ln
+			}
+		}
+	}
+	return -1
 }
 
 func (x *Exec) loopPos(li *loopInfo) token.Pos {
@@ -633,6 +682,13 @@ func (x *Exec) step(ins ssa.Instruction, preds []*ssa.BasicBlock, conds []T) {
 						}
 						o := x.oblige("split-range", "split-range", x.curPC, g, "case split is exhaustive", i.Pos())
 						o.Keep = true
+					} else if x.splitVal != nil && x.contract.Split.Open && (*x.splitVal < x.contract.Split.Lo || *x.splitVal > x.contract.Split.Hi) {
+						v := x.ev.specOf(l)
+						if *x.splitVal < x.contract.Split.Lo {
+							x.vc.assumeAlways(mkImp(x.curPC, mkCmp("<", v, intT64(int64(x.contract.Split.Lo)))))
+						} else {
+							x.vc.assumeAlways(mkImp(x.curPC, mkCmp(">", v, intT64(int64(x.contract.Split.Hi)))))
+						}
 					} else if x.splitVal != nil {
 						lit := x.th.Lit(big.NewInt(int64(*x.splitVal)), *l.MT)
 						x.vc.assumeAlways(mkImp(x.curPC, mkEq(l.T, lit)))
@@ -1009,7 +1065,7 @@ func (x *Exec) doReturn(r *ssa.Return) {
 	}
 	// cover: this return is reachable
 	if !x.waived("cover", pos) {
-		o := x.oblige("cover/"+site, "cover", x.curPC, tFalse, "return reachable", pos)
+		o := x.oblige("cover/"+site, "cover-return", x.curPC, tFalse, "return reachable", pos)
 		o.MustFail = true
 	}
 }
